@@ -36,7 +36,7 @@ void drive_amount(const char* type, const char* opname, const std::vector<typena
         for (uint64_t base = 0; base < n && c.traps < 200000; base += W) {
             std::array<T, V::width> a, res;
             for (unsigned i = 0; i < W; ++i) a[i] = vals[(base + i + rot) % n];
-            bool ok = false;
+            volatile bool ok = false;
             uint32_t cls = pcls((uint64_t)a[0], (uint64_t)s, bits);
             VK_GUARDED(cls, ("a=" + hex(a[0]) + ",s=" + std::to_string(s)), { res = op(V(a), s); ok = true; });
             c.cases++;
@@ -88,7 +88,7 @@ void drive_ct(const char* type, const char* opname, const std::vector<typename V
         for (uint64_t base = 0; base < n && c.traps < 200000; base += W) {
             std::array<T, V::width> a, res;
             for (unsigned i = 0; i < W; ++i) a[i] = vals[(base + i + S) % n];
-            bool ok = false;
+            volatile bool ok = false;
             uint32_t cls = pcls((uint64_t)a[0], (uint64_t)S, bits);
             VK_GUARDED(cls, ("a=" + hex(a[0]) + ",S=" + std::to_string(S)), { res = tab[S](V(a)); ok = true; });
             c.cases++;
